@@ -17,7 +17,7 @@ RULE = ("seeded core-grammar generator (typed SELECTs with joins/subqueries/CTEs
         "non-trivial = round trip of a statement with >= 4 AST nodes that parsed; distinct = distinct (s1, dialect)")
 ASSUMPTIONS = ["a statement that does not parse in a dialect at IMMEDIATE level is outside the property for that dialect"]
 SPEC = {
-    "quick": {"shards": 16, "time_cap": 150, "statements": 2400, "formats": 40},
+    "quick": {"shards": 16, "time_cap": 400, "statements": 2400, "formats": 40},
     "thorough": {"shards": 16, "time_cap": 1500, "statements": 40000, "formats": 400},
 }
 
